@@ -128,6 +128,7 @@ class Part(object):
 
 
 _DEVNULL_HANDLER = []
+_CVSS_MODULES = r"cvss(\..*)?$"
 
 
 def _set_ambient(profile):
@@ -147,6 +148,14 @@ def _set_ambient(profile):
         if h in root.handlers:
             root.removeHandler(h)
         root.setLevel(logging.WARNING)
+    import warnings
+    # (what `-W error::Warning:cvss...` / pytest's filterwarnings=error do; restricted to warnings attributed to the
+    # library's modules so that the harness's own dependencies are not affected)
+    warnings.filters[:] = [f for f in warnings.filters if not (f[0] == "error" and getattr(f[3], "pattern", "") == _CVSS_MODULES)]
+    if profile == "warnings-as-errors":
+        warnings.filterwarnings("error", module=_CVSS_MODULES)
+    if hasattr(warnings, "_filters_mutated"):
+        warnings._filters_mutated()
 
 
 _TERMINAL_ENV = {"COLUMNS": "24", "LINES": "6", "NO_COLOR": "1", "TERM": "dumb"}
@@ -171,10 +180,41 @@ def _run_shard(mod, fname, shard, P, ambient="default"):
                     os.environ[k] = v
 
 
+def _exercise_entry_points():
+    """The library's OTHER entry points used first, the way a long-running application would have used them before
+    it gets to what the shard does: an all-metrics interactive session per version, text extraction, Red Hat
+    notation, the calculator with -j.  Results are not judged here (C16, C13, C12, C17 do that)."""
+    try:
+        from .bootstrap import lib
+        from .spec import tables as T
+        from .workloads import dialogue as DLG
+        L = lib()
+        for vt in ("4", "3.1", "2", "3.0"):
+            ver = DLG.VER_OF[vt]
+            vals = []
+            for m in T.ORDER[ver]:
+                for v in T.VALUES[ver][m]:
+                    if v not in vals:
+                        vals.append(v)
+            DLG.run_dialogue(vt, True, (vals + [""]) * (len(T.ORDER[ver]) + 1), limit=4000)
+        v2, v3 = "AV:A/AC:L/Au:N/C:P/I:P/A:C/E:POC/RL:TF/TD:M", "CVSS:3.1/AV:A/AC:L/PR:L/UI:R/S:C/C:H/I:L/A:N/E:P/RL:T/MAV:A"
+        v4 = "CVSS:4.0/AV:A/AC:L/AT:N/PR:N/UI:N/VC:H/VI:L/VA:N/SC:N/SI:N/SA:N/E:P/CR:M/MAV:A/U:Amber"
+        L.parser.parse_cvss_from_text("see %s and (%s)." % (v2, v3))
+        for cls, v in ((L.CVSS2, v2), (L.CVSS3, v3), (L.CVSS4, v4)):
+            o = cls(v)
+            cls.from_rh_vector(o.rh_vector())
+            o.as_json(sort=True, minimal=True)
+    except Exception:
+        pass
+
+
 def _run_shard_ambient(mod, fname, shard, P, ambient):
     if ambient != "default":
         P.stratum("shards-run-with:" + ambient)
         P.ambient = ambient
+    if ambient == "debug-logging":
+        _exercise_entry_points()
+        P.stratum("shards-run-after:other-entry-points-were-used")
     try:
         if ambient == "fresh-thread":
             import threading
@@ -276,7 +316,8 @@ class Run(object):
         # every third shard runs the way an application with DEBUG logging enabled would run the library
         # ... and every third one in a freshly started thread (not the thread that imported the package; own default
         # decimal context, own thread-local storage)
-        args = [(module or self.mod.__name__, fname, tuple(s), self.mutant, ("default", "debug-logging", "fresh-thread")[i % 3])
+        # ... and every fourth one with warnings issued from the library's own modules turned into errors
+        args = [(module or self.mod.__name__, fname, tuple(s), self.mutant, ("default", "debug-logging", "fresh-thread", "warnings-as-errors")[i % 4])
                 for i, s in enumerate(shards)]
         if workers <= 1 and not fork:
             for a in args:
